@@ -25,7 +25,13 @@ def _call_periodic(loop: asyncio.BaseEventLoop, name, interval, callback):
     start = loop.time()
 
     def run(handle, fn=callback):
-        r = fn()
+        try:
+            r = fn()
+        except BaseException:
+            # the timer is not rescheduled after a failing callback: mark it stopped,
+            # so that .timerc reports 0 for it
+            handle.cancel()
+            raise
         if handle.delegate is None:
             # cancelled from inside the callback (.timerc on its own timer): stay stopped
             return
